@@ -296,7 +296,8 @@ def selftest(tier):
     rnd = random.Random(vf.seed())
     sc = [s for s in scenarios("quick") if s["n"] >= 2]
     rnd.shuffle(sc)
-    sc = sc[:300]
+    allearly = [s for s in sc if len(in_time_valid(s)) >= 2 and all(p["ph"] == "early" for p in in_time_valid(s))]
+    sc = allearly[:200] + [s for s in sc if s not in allearly][:200]
     rows = driver(sc, "selftest")
     pairs = [(rows[i], rows[i + 1]) for i in range(0, len(rows), 2)]
     T = T_MS
@@ -313,8 +314,8 @@ def selftest(tier):
         obs = a["obs"]
         if a["variant"] == "Best" and b["ok"]:
             w = obs[b["who"] - 1]
-            lower = [i + 1 for i, o in enumerate(obs) if o["k"] == "valid" and o["s"] < w["s"] and o["t"] < b["t"] - 2 * eps]
-            if lower:
+            lower = [i + 1 for i, o in enumerate(obs) if o["k"] == "valid" and o["s"] < w["s"] and o["t"] < T // 2 - eps]
+            if lower and w["t"] < T // 2 - eps:
                 add("best: lower-scoring response returned", a, b, who=lower[0])
         if b["ok"] and a["variant"] != "Majority":
             add("result replaced by an error", a, b, ok=False)
